@@ -469,10 +469,10 @@ LIB_SPECS = {
     "C16": dict(shards=16, n=dict(quick=150, thorough=1500), tmpfs=True,
                 floors={"machines": 500, "setups_accepted": 1000, "pools_checked": 4000, "machines_pmem": 50, "machines_hbm": 30, "machines_memless": 30, "machines_offline": 30, "machines_isolated": 50, "machines_hybrid": 30, "machines_multi_die": 50, "special_nodes_attached": 500, "machines_legacy_attribute_names": 100, "setups_via_reconfigure": 500},
                 rule="catalogue + N random machines per shard written as sysfs trees; every accessor of the discovered sysfs.System compared with the generating model; 3 (quick) / 5 (thorough) topology-aware configurations per machine set up through the real backend, pool tree compared with the shape computed from model + configuration; distinct = machine shape x config class for machines with >=2 pools"),
-    "C19": dict(shards=16, n=dict(quick=8000, thorough=75000),
+    "C19": dict(shards=16, n=dict(quick=8000, thorough=300000),
                 floors={"reference_compared": 50000, "joint_keys": 20000, "weights_compared": 2000, "balloon_placements": 1500, "balloon_order_decided": 500},
                 rule="N expression cases per shard on real cache pods/containers (duality, doc-derived reference evaluator, joint keys, validated-never-panics), N/20 affinity-weight cases, N/200 balloon-type selection cases through the real balloons policy; distinct by case hash"),
-    "C20": dict(shards=16, n=dict(quick=8000, thorough=100000),
+    "C20": dict(shards=16, n=dict(quick=8000, thorough=400000),
                 floors={"cpu_values_checked": 256001, "capacities_checked": 100000, "adj_roundtrips": 10000000, "cache_containers_checked": 1000},
                 rule="CPU part exhaustive in every shard (all m in 0..256000, all shares 2..262144, all quotas); memory part: fixed list of 4511 capacities + N PRNG-drawn capacities per shard in [1MiB,64TiB], table build under recover and all Burstable adjustments round-tripped; containers of the three QoS classes through the cache"),
     "C18lib": dict(prop="C18", shards=16, n=dict(quick=800, thorough=8000),
@@ -638,7 +638,7 @@ def build_gotest(pkg, outname):
 
 C17_SPEC = dict(
     floors={"notifies": 100000, "redeliveries_suppressed": 10000, "invalid_suppressed": 10000, "fallbacks": 1000, "rejects": 10000},
-    rule="EXHAUSTIVE enumeration of all event sequences of length L (quick 5, thorough 6) over a 15-event alphabet (node/group add v1, add v2, re-deliver, invalid, rejected-by-callback, delete, recreated-UID, generation-0 file object) on a fresh Agent each, driving updateNodeConfig/updateGroupConfig exactly as Agent.Start's select loop does; trace invariants + doc-derived reference state machine after every event; plus fatal-callback sequences and the topology-aware config type at depth min(L,4); distinct = distinct (reference state, last delivered, event) transitions",
+    rule="EXHAUSTIVE enumeration of all event sequences of length L (quick 5, thorough 7) over a 15-event alphabet (node/group add v1, add v2, re-deliver, invalid, rejected-by-callback, delete, recreated-UID, generation-0 file object) on a fresh Agent each, driving updateNodeConfig/updateGroupConfig exactly as Agent.Start's select loop does; trace invariants + doc-derived reference state machine after every event; plus fatal-callback sequences and the topology-aware config type at depth min(L,4); distinct = distinct (reference state, last delivered, event) transitions",
     assumptions=["the watch plumbing (reconnects, node-label driven group switches) is not driven: events are fed to the two update functions directly, in one goroutine, as the select loop does"],
 )
 
@@ -648,7 +648,7 @@ def check_c17(prop, tier, seed):
     tb = build_gotest("./pkg/agent/", "agent.test")
     rundir = os.path.join(BUILD, "run", "%s-%d" % (prop, os.getpid()))
     shutil.rmtree(rundir, ignore_errors=True)
-    depth, shards = (5, 8) if tier == "quick" else (6, 16)
+    depth, shards = (5, 8) if tier == "quick" else (7, 16)
     jobs = []
     for sh in range(shards):
         work = os.path.join(rundir, "a%02d" % sh)
